@@ -21,6 +21,10 @@ package urltree
 //@ ghost func parStep(n *Node[int], p urlPart) bool = !litStep(n, p) && n.ParametricChild.Child != nil && n.ParametricChild.Child.IsPartOfHost == p.IsPartOfHost
 //@ ghost func stepTo(n *Node[int], p urlPart, m *Node[int]) bool = (litStep(n, p) && m == n.ConstantChildren[p.Value]) || (parStep(n, p) && m == n.ParametricChild.Child)
 
+// wcOn: the wildcard child of n covers a URL that continues with part p - a path wildcard ("a.com/*") covers path segments
+// only, never a further host label ("a.com.evil/x" is another host); the wildcard at the root ("*") covers every URL
+//@ ghost func wcOn(t *URLTree[int], n *Node[int], p urlPart) bool = n.WildcardChild != nil && (n == t.Root || n.WildcardChild.IsPartOfHost || !p.IsPartOfHost)
+
 //@ func lookupNode
 //@   prop C13, C03
 //@   instantiate T=int
@@ -32,19 +36,19 @@ package urltree
 //@   allocates map
 //@   on entry do path[0] = urlTree.Root; wj = -1; nw = 0
 //@   loop 1 modifies mapof(params), path, wj, nw
-//@   loop 1 do path[idx1] = currentNode; wj = ite(path[idx1-1].WildcardChild != nil, idx1 - 1, wj); nw = idx1
+//@   loop 1 do path[idx1] = currentNode; wj = ite(wcOn(urlTree, path[idx1-1], splitURL[idx1-1]), idx1 - 1, wj); nw = idx1
 //@   loop 1 invariant[own-params-map] params == nil || fresh_since_entry(params)
 //@   loop 1 invariant[on-the-path] nw == idx1 && path[0] == urlTree.Root && currentNode == path[idx1] && currentNode != nil && allocated(currentNode)
 //@   loop 1 invariant[literal-then-parameter] forall(j, 0, idx1, path[j] != nil && allocated(path[j]) && stepTo(path[j], splitURL[j], path[j+1]))
-//@   loop 1 invariant[deepest-wildcard] -1 <= wj && wj < idx1 && (wj == -1 ==> foundWildcardNode == nil && forall(j, 0, idx1, path[j].WildcardChild == nil)) && (wj >= 0 ==> foundWildcardNode != nil && foundWildcardNode == path[wj].WildcardChild && forall(j, wj + 1, idx1, path[j].WildcardChild == nil))
+//@   loop 1 invariant[deepest-wildcard] -1 <= wj && wj < idx1 && (wj == -1 ==> foundWildcardNode == nil && forall(j, 0, idx1, !wcOn(urlTree, path[j], splitURL[j]))) && (wj >= 0 ==> foundWildcardNode != nil && foundWildcardNode == path[wj].WildcardChild && wcOn(urlTree, path[wj], splitURL[wj]) && forall(j, wj + 1, idx1, !wcOn(urlTree, path[j], splitURL[j])))
 //@   ensures[walk-starts-at-the-root] path[0] == urlTree.Root && 0 <= nw && nw <= len(splitURL)
 //@   ensures[literal-then-parameter] forall(j, 0, nw, stepTo(path[j], splitURL[j], path[j+1]))
 // (a trailing "*" part is the look-up of a declared wildcard pattern: it ends at the wildcard child when there is one)
 //@   ensures[stops-only-without-a-child] nw < len(splitURL) && !(splitURL[nw].Value == "*" && nw == len(splitURL) - 1 && path[nw].WildcardChild != nil) ==> !litStep(path[nw], splitURL[nw]) && !parStep(path[nw], splitURL[nw])
 //@   ensures[declared-wildcard-pattern-finds-its-own-node] nw == len(splitURL) - 1 && splitURL[nw].Value == "*" && path[nw].WildcardChild != nil && !litStep(path[nw], splitURL[nw]) ==> result.match && result.node == path[nw].WildcardChild
 //@   ensures[exact-node-wins] nw == len(splitURL) && path[nw].Value != nil ==> result.match && result.node == path[nw]
-//@   ensures[deepest-wildcard-is-the-fall-back] result.match && !(nw == len(splitURL) && path[nw].Value != nil) ==> result.node != nil && exists(d, 0, nw + 1, result.node == path[d].WildcardChild && forall(j, d + 1, nw + 1, path[j].WildcardChild == nil))
-//@   ensures[no-match-without-a-wildcard] !result.match && !(nw < len(splitURL) && strings.HasPrefix(splitURL[nw].Value, "{") && strings.HasSuffix(splitURL[nw].Value, "}")) ==> forall(j, 0, nw + 1, path[j].WildcardChild == nil)
+//@   ensures[deepest-wildcard-is-the-fall-back] result.match && !(nw == len(splitURL) && path[nw].Value != nil) && !(nw == len(splitURL) - 1 && splitURL[nw].Value == "*") ==> result.node != nil && exists(d, 0, nw + 1, result.node == path[d].WildcardChild && ite(d < len(splitURL), wcOn(urlTree, path[d], splitURL[d]), path[d].WildcardChild != nil) && forall(j, d + 1, nw + 1, !ite(j < len(splitURL), wcOn(urlTree, path[j], splitURL[j]), path[j].WildcardChild != nil)))
+//@   ensures[no-match-without-a-wildcard] !result.match && !(nw < len(splitURL) && strings.HasPrefix(splitURL[nw].Value, "{") && strings.HasSuffix(splitURL[nw].Value, "}")) ==> forall(j, 0, nw + 1, !ite(j < len(splitURL), wcOn(urlTree, path[j], splitURL[j]), path[j].WildcardChild != nil))
 
 // The flow traversal (filter tree, C03) walks the same way and collects, in order, the values of the wildcard children
 // it passes and finally the value of the node it reached - the URL's OWN node only if every part of the URL was walked.
@@ -59,15 +63,15 @@ package urltree
 //@   modifies nothing
 //@   on entry do path[0] = urlTree.Root
 //@   loop 1 modifies path, fnode, fpos
-//@   loop 1 do path[idx1] = currentNode; fnode[len(flows) - 1] = ite(path[idx1-1].WildcardChild != nil && path[idx1-1].WildcardChild.Value != nil, path[idx1-1].WildcardChild, fnode[len(flows) - 1]); fpos[idx1-1] = len(flows) - 1
+//@   loop 1 do path[idx1] = currentNode; fnode[len(flows) - 1] = ite(wcOn(urlTree, path[idx1-1], splitURL[idx1-1]) && path[idx1-1].WildcardChild.Value != nil, path[idx1-1].WildcardChild, fnode[len(flows) - 1]); fpos[idx1-1] = len(flows) - 1
 //@   loop 1 invariant[on-the-path] walkedParts == idx1 && path[0] == urlTree.Root && currentNode == path[idx1] && currentNode != nil && allocated(currentNode)
 //@   loop 1 invariant[literal-then-parameter] forall(j, 0, idx1, path[j] != nil && allocated(path[j]) && stepTo(path[j], splitURL[j], path[j+1]))
-//@   loop 1 invariant[only-wildcards-on-the-way] forall(r, 0, len(flows), fnode[r] != nil && fnode[r].Value != nil && flows[r] == *fnode[r].Value && exists(j, 0, idx1, fnode[r] == path[j].WildcardChild))
-//@   loop 1 invariant[every-wildcard-on-the-way] forall(j, 0, idx1, path[j].WildcardChild != nil && path[j].WildcardChild.Value != nil ==> 0 <= fpos[j] && fpos[j] < len(flows) && flows[fpos[j]] == *path[j].WildcardChild.Value)
-//@   ensures[every-wildcard-on-the-way] forall(j, 0, walkedParts, path[j].WildcardChild != nil && path[j].WildcardChild.Value != nil ==> 0 <= fpos[j] && fpos[j] < len(result.found) && result.found[fpos[j]] == *path[j].WildcardChild.Value)
+//@   loop 1 invariant[only-wildcards-on-the-way] forall(r, 0, len(flows), fnode[r] != nil && fnode[r].Value != nil && flows[r] == *fnode[r].Value && exists(j, 0, idx1, fnode[r] == path[j].WildcardChild && wcOn(urlTree, path[j], splitURL[j])))
+//@   loop 1 invariant[every-wildcard-on-the-way] forall(j, 0, idx1, wcOn(urlTree, path[j], splitURL[j]) && path[j].WildcardChild.Value != nil ==> 0 <= fpos[j] && fpos[j] < len(flows) && flows[fpos[j]] == *path[j].WildcardChild.Value)
+//@   ensures[every-wildcard-on-the-way] forall(j, 0, walkedParts, wcOn(urlTree, path[j], splitURL[j]) && path[j].WildcardChild.Value != nil ==> 0 <= fpos[j] && fpos[j] < len(result.found) && result.found[fpos[j]] == *path[j].WildcardChild.Value)
 //@   ensures[walk] 0 <= walkedParts && walkedParts <= len(splitURL) && forall(j, 0, walkedParts, stepTo(path[j], splitURL[j], path[j+1]))
 //@   ensures[stops-only-without-a-child] walkedParts < len(splitURL) ==> !litStep(path[walkedParts], splitURL[walkedParts]) && !parStep(path[walkedParts], splitURL[walkedParts])
 //@   ensures[own-node-included] walkedParts == len(splitURL) && path[walkedParts].Value != nil ==> len(result.found) > 0 && result.found[len(result.found) - 1] == *path[walkedParts].Value
 // (a wildcard pattern P/* covers URLs with at least one more segment than P; the one exception is a bare host, which
 // host/* covers - the wildcard child of the node the whole URL led to is returned only in that case)
-//@   ensures[own-node-only-when-the-whole-url-was-walked] forall(r, 0, len(result.found), exists(j, 0, walkedParts + 1, path[j].WildcardChild != nil && path[j].WildcardChild.Value != nil && result.found[r] == *path[j].WildcardChild.Value && (j < len(splitURL) || (len(splitURL) > 0 && splitURL[len(splitURL) - 1].IsPartOfHost))) || (walkedParts == len(splitURL) && path[walkedParts].Value != nil && result.found[r] == *path[walkedParts].Value))
+//@   ensures[own-node-only-when-the-whole-url-was-walked] forall(r, 0, len(result.found), exists(j, 0, walkedParts + 1, path[j].WildcardChild != nil && path[j].WildcardChild.Value != nil && result.found[r] == *path[j].WildcardChild.Value && ((j < len(splitURL) && wcOn(urlTree, path[j], splitURL[j])) || (j == len(splitURL) && len(splitURL) > 0 && splitURL[len(splitURL) - 1].IsPartOfHost))) || (walkedParts == len(splitURL) && path[walkedParts].Value != nil && result.found[r] == *path[walkedParts].Value))
